@@ -310,6 +310,8 @@ fn case(ctx: &Ctx, rep: &mut Report, case: u64, g: &mut Sm64, kind: Kind) {
     }
     rep.distinct((format!("{kind:?}"), seed, n_chains, dim, cfg.n_collect, cfg.n_discard));
     rep.distinct(("hash", hash_u64s(&base)));
+    rep.distinct_in("output byte images", hash_u64s(&base));
+    rep.distinct_in("seeds", seed);
     rep.sample(json!({"cfg": cj, "output_hash": format!("{:016x}", hash_u64s(&base)), "threads": threads, "background_samplers": n_bg}));
 }
 
